@@ -46,9 +46,13 @@ Definition pit_ok (s : st) : Prop :=
   (forall pn nid e, In (pn, nid, e) (pflat (pit s)) ->
      exists r, get_int s (e_id e) = Some r /\ i_name r = pn /\ i_node r = nid /\ e = entry_of (e_id e) r).
 
+(* the time-free part: the PIT holds exactly the records that are still pending *)
+Definition inv_struct (s : st) : Prop :=
+  NoDup (map fst (ints s)) /\ pit_ok s /\
+  (forall i r, get_int s i = Some r -> mem i (pit_entries s) = pendingb r).
+
 Definition inv (fe : frontend) (sb : bool) (s : st) : Prop :=
-  NoDup (map fst (ints s)) /\ pit_ok s /\ (shut s = true -> pit s = []) /\
-  (forall i r, get_int s i = Some r -> rec_ok fe sb (now s) r /\ mem i (pit_entries s) = pendingb r).
+  inv_struct s /\ (forall i r, get_int s i = Some r -> rec_ok fe sb (now s) r).
 
 (* ---- static fields are never touched ---- *)
 Lemma same_static_refl r : same_static r r. Proof. repeat split. Qed.
